@@ -24,6 +24,16 @@ pub struct Body {
 
 pub const FAR: usize = 1 << 40;
 
+/// Orders far above the usual test sizes (used once in ~150 histories, with sparse starts and few steps):
+/// index arithmetic that only goes wrong when order^2 or order^3 crosses a machine-word power.
+pub fn draw_giant_order(rng: &mut Rng) -> usize {
+    if rng.chance(1, 2) {
+        *rng.pick(&[511, 512, 513, 1023, 1024, 1025, 1625, 1649, 1740, 1812, 1999, 2000, 2047, 2048])
+    } else {
+        rng.range(300, 2100)
+    }
+}
+
 pub fn draw_small_order(rng: &mut Rng, kind: ReprKind) -> usize {
     if kind == ReprKind::Matrix && rng.chance(1, 10) {
         // every residue of order^2 mod 64 and of the block count; cells beyond 2^12 (the row stride itself
@@ -425,6 +435,41 @@ impl Lane for C01 {
 
     fn draw(rng: &mut Rng, tier: Tier, _run_index: u64) -> Scenario<Body> {
         let kind = *rng.pick(&ALL_KINDS);
+        if rng.chance(1, 150) {
+            // giant, sparse: an empty start of order 300..2100, arcs added at and around the corners
+            let n = draw_giant_order(rng);
+            let mut steps = Vec::new();
+            let corner = |rng: &mut Rng| -> usize {
+                match rng.below(6) {
+                    0 => 0,
+                    1 => n - 1,
+                    2 => n - 2,
+                    3 => n / 2,
+                    _ => rng.below(n),
+                }
+            };
+            for _ in 0..rng.range(6, 14) {
+                let (u, mut v) = (corner(rng), corner(rng));
+                if u == v {
+                    v = (v + 1) % n;
+                }
+                steps.push(if kind.weighted() {
+                    Step::AddW { u, v, w: draw_weight(rng, kind) }
+                } else if rng.chance(1, 5) {
+                    Step::Remove { u, v }
+                } else {
+                    Step::Add { u, v }
+                });
+            }
+            steps.push(Step::Add { u: n, v: 0 });
+            if kind.weighted() {
+                let _ = steps.pop();
+                steps.push(Step::AddW { u: 0, v: n, w: 1 });
+            }
+            clamp_steps(kind, &mut steps);
+            let conf = Conf { cpu: draw_cpu(rng, n), sched: draw_sched(rng, 16), trace: None };
+            return Scenario { body: Body { kind, start: Start::Empty { order: n }, steps }, confs: vec![conf] };
+        }
         let start = draw_start(rng, kind);
         let n = start_order_hint(&start);
         let maxlen = match tier {
@@ -467,6 +512,10 @@ impl Lane for C01 {
                 return vs;
             }
         };
+        if model.v.is_empty() {
+            vs.push(Violation::new("start_without_vertices", &ctor, "start", "the start digraph shows no vertex at all".into()));
+            return vs;
+        }
         if kind.fixed_order() && !model.unweighted().is_contiguous() {
             vs.push(Violation::new("malformed_listing", &ctor, "start", format!("fixed-order representation shows V = {:?}", model.v)));
             return vs;
@@ -478,8 +527,14 @@ impl Lane for C01 {
         let ok = run_history(kind, &mut g, &mut model, steps, st, &mut vs, "");
         if ok {
             // == against a freshly built digraph with the same (V, A, w)
-            if kind == ReprKind::Map || model.unweighted().is_contiguous() {
-                let fresh = DynG::build(kind, &model);
+            if !model.v.is_empty() && (kind == ReprKind::Map || model.unweighted().is_contiguous()) {
+                let fresh = match crate::reps::guard(|| DynG::build(kind, &model)) {
+                    Ok(f) => f,
+                    Err(m) => {
+                        vs.push(Violation::new("unexpected_panic", &format!("{}::build", kind.name()), "valid", format!("building V={:?} A={:?} through the mutation API panicked: {m}", model.v, model.a)));
+                        return vs;
+                    }
+                };
                 if fresh != g {
                     vs.push(Violation::new("not_equal_to_fresh_build", &format!("{}::eq", kind.name()), "valid",
                         format!("after the history the digraph shows V={:?} A={:?} but differs (==) from a digraph freshly built with exactly that content", model.v, model.a)));
